@@ -44,12 +44,18 @@ RULE = (
     "distinct (scenario, hook log) pairs of executions with at least one non-default choice"
 )
 ASSUMPTIONS = [
-    "TLS listeners (garbage / stalled / cut handshake) are NOT enumerated here (no TLS rig in this check); plain TCP and UDP only",
+    "TLS listeners are driven in props/c17_tls.py (own RULE / ASSUMPTIONS / BOUNDS there): relays deliver ciphertext whole (no record fragmentation), F always ends before shutdown",
     "what the servers log is not an observable (the statement does not speak about logging); loop exception-handler calls are counted, not judged",
     "the faulty peer's own request/response exchange is not judged beyond 'its connection ends closed and on_disconnection ran iff documented'",
     "healthy handlers answer every request with one packet and never fail; sends never block (unbounded fake pipes)",
 ]
 BOUNDS = {"quick": "1 placement deviation per scenario", "thorough": "2 placement deviations per scenario (1 for TCP scenarios with 2 healthy clients)"}
+
+from . import c17_tls as _tls  # noqa: E402  (TLS-listener part: its rule, assumptions and bounds are part of this check's evidence)
+
+RULE = RULE + " || " + _tls.RULE
+ASSUMPTIONS = ASSUMPTIONS + list(_tls.ASSUMPTIONS)
+BOUNDS = {k: BOUNDS[k] + "; " + _tls.BOUNDS[k] for k in BOUNDS}
 
 EXC = ("ValueError", "KeyError", "EG", "ConnReset", "BrokenPipe", "ClientClosed", "Timeout", "ParseError", "BEG")
 TCP_POS = ("oc-coro", "oc-gen-pre", "oc-gen-post", "h-pre", "h-post", "h-thrown", "h-finally-ret", "h-finally-exit", "disc")
@@ -613,7 +619,11 @@ def scenarios(tier: str) -> list[dict]:
 def jobs(tier: str) -> list[dict]:
     sc = scenarios(tier)
     per = 4 if tier == "quick" else 1
-    return [{"tier": tier, "lo": i, "hi": min(i + per, len(sc))} for i in range(0, len(sc), per)]
+    out: list[dict] = [{"tier": tier, "lo": i, "hi": min(i + per, len(sc))} for i in range(0, len(sc), per)]
+    from . import c17_tls
+
+    out += c17_tls.jobs(tier)  # TLS listener: connection set-up faults (garbage / stalled / cut / reset handshakes) next to healthy TLS clients
+    return out
 
 
 def describe(cfg: dict) -> str:
@@ -631,6 +641,10 @@ def oracle(cfg: dict, obs: dict) -> tuple[str | None, str]:
 
 
 def run_job(job: dict) -> JobResult:
+    if job.get("kind") == "tls":
+        from . import c17_tls
+
+        return c17_tls.run_job(job)
     res = JobResult()
     for cfg in scenarios(job["tier"])[job["lo"]:job["hi"]]:
         found: dict[str, tuple[Ctx, dict, str]] = {}
@@ -673,6 +687,10 @@ def run_job(job: dict) -> JobResult:
 
 def replay(doc: dict) -> tuple[bool, str]:
     rp = doc["replay"]
+    if rp.get("kind") == "tls":
+        from . import c17_tls
+
+        return c17_tls.replay(doc)
     cfg = rp["cfg"]
     ctx = Ctx(rp["choices"])
     obs = run_one(ctx, cfg)
